@@ -47,6 +47,8 @@ pub enum Mode {
     Os,
     /// serve bytes from a deterministic stream; optionally fail at the k-th call (0-based)
     Script { prng: SplitMix64, fixed: Option<u8>, fail_at: Option<usize> },
+    /// serve bytes from a deterministic stream until the k-th call, fail at it and at every later call
+    FailFrom { prng: SplitMix64, from: usize },
     /// serve exactly these bytes (front first); fail when exhausted
     Exact { data: Vec<u8>, pos: usize },
 }
@@ -106,6 +108,14 @@ unsafe extern "Rust" fn __getrandom_v03_custom(dest: *mut u8, len: usize) -> Res
                         Some(b) => buf.fill(*b),
                         None => buf.copy_from_slice(&prng.bytes(len)),
                     }
+                    true
+                }
+            }
+            Mode::FailFrom { prng, from } => {
+                if idx >= *from {
+                    false
+                } else {
+                    buf.copy_from_slice(&prng.bytes(len));
                     true
                 }
             }
